@@ -107,6 +107,20 @@ let run (line : string) : string =
     let hv = hvres_of_h hm and sv = hvres_of_s sm and cv = hvres_of_s cm in
     Printf.sprintf "%s | %s | %s | stopped=%s | hw=%s | cw=%s | laxH=%s" (hvres hv) (hvres sv) (hvres cv)
       (b01 (stopped_at_ext cm)) (hvw hv) (hvw cv) (lhvres (lhvres_of_h lm))
+    (* ---- audit1-c04 ---- the slots of the struct Ipv6Extensions one by one, behind " ## " *)
+    ^ (let slot = function
+         | None -> "-"
+         | Some (_, b) ->
+           Printf.sprintf "%d/%s" (List.length b) (match b with x :: _ -> sn x | [] -> "?") in
+       let slots = function
+         | Some (HnIp (IhV6 (_, x))) ->
+           Printf.sprintf "hbh:%s,dst:%s,rt:%s,fdst:%s,frag:%s,auth:%s" (slot x.x_hbh) (slot x.x_dest)
+             (slot x.x_route) (slot x.x_fdest) (slot x.x_frag) (slot x.x_auth)
+         | _ -> "-" in
+       Printf.sprintf " ## slots=%s laxslots=%s"
+         (match hm with Ok p -> slots p.h_net | _ -> "-")
+         (match lm with Ok p -> slots p.lh_net | _ -> "-"))
+    (* ---- end audit1-c04 ---- *)
   | _ -> failwith ("bad c04 case: " ^ line)
 
 let () =
